@@ -15,6 +15,8 @@ import ChythonModel.Model.C09Arrays
 * `ga <old> <k> <scope01>*k <lquery> <lmol>` → per query component `ok <max stack pointer> <pushes> <mappings>` | `oob <array> <index> <size>` |
   `uninit <array>` | `range`, joined by ` ; ` — `get_mapping` of the `.pyx` on the encoders' buffers with the arrays at the regenerated
   sizes (`old` = 1: with the `2 * atoms` stack of before repo commit e44243a); scope = one flag per atom in `_atoms` order
+* `gb <old> <k> <scope01>*k <cquery> <cmol>` → the same for one pair of raw buffers (`<cmol>` / `<cquery>` in the format `es` / `ec` print):
+  the guarded matcher on buffers no encoder produced (duplicated bond rows, indices outside the buffer, short scope arrays)
 
 `<matom>` = `z iso(-1) charge rad nb hyb k rs*k h(-1) het`; `<qatom>` = `kind z iso(-1) k zs*k charge rad L(nb) L(hyb) L(rs) L(h) L(het) stereo masked`;
 `<qbond>` = `k orders*k inring(-1|0|1) stereo`; `<lmol>` = `N (id <matom> deg (nbr order inring)*deg)*N`;
@@ -141,6 +143,45 @@ def showCQuery (q : CQuery) : String :=
   let atoms := q.atoms.map fun a => s!"{a.m1} {a.m2} {a.m3} {a.m4} {a.back} {a.closure} {a.from_} {a.to_} {a.mapping}"
   let bonds := q.bonds.map fun b => s!"{b.bond} {b.index}"
   " ".intercalate ([toString q.atoms.length] ++ atoms ++ [toString q.bonds.length] ++ bonds)
+
+def readCBond (xs : List Int) : Option (CBond × List Int) :=
+  match xs with
+  | b :: i :: r => some (⟨b.toNat, i.toNat⟩, r)
+  | _ => none
+
+def readCAtom (xs : List Int) : Option (CAtom × List Int) :=
+  match xs with
+  | b1 :: b2 :: b3 :: b4 :: f :: t :: n :: r => some (⟨b1.toNat, b2.toNat, b3.toNat, b4.toNat, f.toNat, t.toNat, n.toNat⟩, r)
+  | _ => none
+
+def readCQAtom (xs : List Int) : Option (CQAtom × List Int) :=
+  match xs with
+  | m1 :: m2 :: m3 :: m4 :: bk :: c :: f :: t :: n :: r =>
+    some (⟨m1.toNat, m2.toNat, m3.toNat, m4.toNat, bk.toNat, c.toNat, f.toNat, t.toNat, n.toNat⟩, r)
+  | _ => none
+
+/-- `N <atom>*N M <bond>*M` (the format `es` / `ec` print) -/
+def readCMol (xs : List Int) : Option (CMol × List Int) :=
+  match xs with
+  | n :: r0 => do
+    let (atoms, r1) ← readMany readCAtom n.toNat r0
+    match r1 with
+    | k :: r2 => do
+      let (bonds, r3) ← readMany readCBond k.toNat r2
+      some (⟨atoms, bonds⟩, r3)
+    | [] => none
+  | [] => none
+
+def readCQuery (xs : List Int) : Option (CQuery × List Int) :=
+  match xs with
+  | n :: r0 => do
+    let (atoms, r1) ← readMany readCQAtom n.toNat r0
+    match r1 with
+    | k :: r2 => do
+      let (bonds, r3) ← readMany readCBond k.toNat r2
+      some (⟨atoms, bonds⟩, r3)
+    | [] => none
+  | [] => none
 
 def showDict (d : Iso.Dict) : String := " ".intercalate (d.map fun p => s!"{p.1} {p.2}")
 
@@ -272,6 +313,21 @@ def handle (line : String) : String :=
                       showFault (getMappingA al cm cq (sc.map (· != 0))))
                   | .error e, _ => s!"err {e.name}"
                   | _, .error e => s!"err {e.name}"
+              | none => "error args"
+            | none => "error args"
+          | none => "error args"
+        | [] => "error args"
+      | "gb" =>
+        match xs with
+        | old :: r0 =>
+          match readNatList r0 with
+          | some (sc, r1) =>
+            match readCQuery r1 with
+            | some (cq, r2) =>
+              match readCMol r2 with
+              | some (cm, _) =>
+                let al := if old != 0 then allocOld cq.atoms.length cm.atoms.length else allocOf cq.atoms.length cm.atoms.length
+                showFault (getMappingA al cm cq (sc.map (· != 0)))
               | none => "error args"
             | none => "error args"
           | none => "error args"
